@@ -108,3 +108,91 @@ def alignOrigDown (base8 off : Int) : Int := alignUp base8 off - 8
 def alignOrigAdjust (s : UStack) (extra : Int) : UStack := { s with top2 := s.top2 - extra, used := s.used + extra }
 
 end Slu
+
+namespace Slu
+
+/-! ### the file-static state that survives between driver calls (`whichspace`, `stack`) and the operations that read it -/
+
+inductive UMode where
+  | system | user
+  deriving Repr, DecidableEq
+
+structure UState where
+  mode : UMode
+  st : UStack
+  deriving Repr, DecidableEq
+
+structure UParams where
+  iword : Int
+  dword : Int
+  maxsuper : Int
+  rowblk : Int
+  base8 : Int
+
+/-- `p?gstrf_SetupSpace(work, lwork)` as written: `lwork = 0` selects the system allocator and leaves the stack descriptor
+alone, `lwork > 0` selects the caller's buffer and resets every field of the descriptor, `lwork < 0` (the query) touches nothing. -/
+def setupSpace (old : UState) (lwork : Int) : UState :=
+  if lwork = 0 then { old with mode := .system }
+  else if lwork > 0 then { mode := .user, st := UStack.setup lwork }
+  else old
+
+inductive UOp where
+  | mh (b : Int) | mt (b : Int) | fh (b : Int) | ft (b : Int)
+  | wi (n w : Int)            -- p?gstrf_WorkInit as a whole
+  | wf                        -- p?gstrf_WorkFree
+  | probe
+  deriving Repr, DecidableEq
+
+inductive UOut where
+  | ptr (p : Option Int)
+  | unit
+  | work (rc : Int) (i d : Option Int)
+  | sysWork                   -- system allocator: pointers outside the caller's buffer
+  | two (a b : Option Int)
+  deriving Repr, DecidableEq
+
+/-- one allocator operation.  In system mode `WorkInit`/`WorkFree` do not touch the stack descriptor; the raw `?user_malloc`
+family is only meaningful in user mode and is modelled there. -/
+def ustep (K : UParams) (u : UState) : UOp → UState × UOut
+  | .mh b => let (s, r) := u.st.mallocHead b; ({ u with st := s }, .ptr r)
+  | .mt b => let (s, r) := u.st.mallocTail b; ({ u with st := s }, .ptr r)
+  | .fh b => ({ u with st := u.st.freeHead b }, .unit)
+  | .ft b => ({ u with st := u.st.freeTail b }, .unit)
+  | .wi n w =>
+    match u.mode with
+    | .system => (u, .sysWork)
+    | .user =>
+      let isz := iworkBytes n w K.iword
+      let dsz := dworkBytes n w K.maxsuper K.rowblk K.dword
+      let st1 := { u.st with tailUsers := u.st.tailUsers + 1 }
+      match st1.mallocTail isz with
+      | (st2, none) => ({ u with st := st2 }, .work (isz + n) none none)
+      | (st2, some oi) =>
+        match st2.mallocTail (dsz + 8) with
+        | (st3, none) => ({ u with st := st3 }, .work (isz + dsz + n) (some oi) none)
+        | (st3, some od) => ({ u with st := st3 }, .work 0 (some oi) (some (alignUp K.base8 od)))
+  | .wf =>
+    match u.mode with
+    | .system => (u, .unit)
+    | .user =>
+      let tu := u.st.tailUsers - 1
+      let st' := if tu ≤ 0 then { u.st with tailUsers := tu, used := u.st.used - (u.st.size - u.st.top2), top2 := u.st.size }
+                 else { u.st with tailUsers := tu }
+      ({ u with st := st' }, .unit)
+  | .probe =>
+    let (s1, r1) := u.st.mallocHead 0
+    let (s2, r2) := s1.mallocTail 0
+    ({ u with st := s2 }, .two r1 r2)
+
+/-- run a sequence of operations, collecting the outputs -/
+def urun (K : UParams) : UState → List UOp → List UOut
+  | _, [] => []
+  | u, op :: ops => let r := ustep K u op; r.2 :: urun K r.1 ops
+
+/-- the operations a factorization issues: worker set-up and release only (the raw requests are the master's business in user mode) -/
+def workerOp : UOp → Bool
+  | .wi _ _ => true
+  | .wf => true
+  | _ => false
+
+end Slu
